@@ -39,6 +39,7 @@ from leaspy.utils.weighted_tensor import WeightedTensor
 from leaspy.variables.specs import LinkedVariable
 
 from ..core import Acc, digest
+from leaspy.io.data import Data, Dataset
 from ..models import cohort_dataset, fresh_state, model_dict
 from ..oracle import tdigest
 
@@ -89,8 +90,20 @@ def _spec_key(spec):
     return json.dumps(spec, sort_keys=True)
 
 
+EVENT_CODES_2 = {"b": 2, "a": 0, "c": 1}  # competing events: b (always first) has event 2 (the reader wants the highest code present), a is censored, c has event 1
+
+
 def _model_dict(spec):
-    d = copy.deepcopy(model_dict(spec))
+    d = copy.deepcopy(model_dict({k: v for k, v in spec.items() if k != "ne"}))
+    ne = int(spec.get("ne", 1))
+    if spec["kind"] == "joint" and ne != 1:
+        # competing events (hyperparameter nb_events): one Weibull shape / scale (and one row of zeta) per event
+        d["nb_events"] = ne
+        p = d["parameters"]
+        p["log_rho_mean"] = [round(p["log_rho_mean"][0] - 0.3 * e, 6) for e in range(ne)]
+        p["n_log_nu_mean"] = [round(p["n_log_nu_mean"][0] - 0.2 * e, 6) for e in range(ne)]
+        if spec.get("ns"):
+            p["zeta_mean"] = [[round(0.05 * (j + 1) * (-1) ** (j + e), 6) for e in range(ne)] for j in range(spec["ns"])]
     if spec["kind"] == "mixture_logistic":
         ns = int(spec.get("ns", 0))
         p = d["parameters"]
@@ -119,7 +132,16 @@ def base_state(spec, ids):
     k = (_spec_key(spec), tuple(ids))
     if k not in _BASES:
         m = build(spec)
-        ds = cohort_dataset(list(ids), spec)
+        ne = int(spec.get("ne", 1))
+        if spec["kind"] == "joint" and ne != 1:
+            from lmc.models import EVENTS, cohort_frame as _cf
+            df = _cf(list(ids), spec.get("dim", 2), joint=True)
+            df["EVENT_BOOL"] = [EVENT_CODES_2[i] for i in df["ID"]]
+            # the reader wants to see every event code of the declared number of events: with fewer than 3 members the
+            # number of events is given explicitly (as scipy_minimize does for its single-individual datasets)
+            ds = Dataset(Data.from_dataframe(df, "joint", factory_kws={"nb_events": ne}))
+        else:
+            ds = cohort_dataset(list(ids), spec)
         _BASES[k] = fresh_state(m, ds, latent=None)
     return _BASES[k]
 
@@ -174,7 +196,7 @@ def sources_alt(n, ns, which):
 
 def pop_axes(spec):
     """name -> [base value, alternative value] for the population variables entering the trajectories."""
-    d = model_dict(spec)["parameters"]
+    d = _model_dict(spec)["parameters"]
     kind, dim, ns = spec["kind"], spec["dim"], spec["ns"]
     r = lambda xs: [round(float(x), 6) for x in xs]
     ax = {}
@@ -192,7 +214,7 @@ def pop_axes(spec):
         b = d["betas_mean"]
         ax["betas"] = [[r(row) for row in b], [r([-1.5 * x + 0.05 for x in row]) for row in b]]
     if kind == "joint":
-        ax["n_log_nu"] = [r(d["n_log_nu_mean"]), r([d["n_log_nu_mean"][0] + D_N_LOG_NU])]
+        ax["n_log_nu"] = [r(d["n_log_nu_mean"]), r([x + D_N_LOG_NU for x in d["n_log_nu_mean"]])]
     return ax
 
 
@@ -216,6 +238,9 @@ def gauge_specs(tier):
                         continue
                     for v in variants:
                         out.append({"kind": kind, "dim": dim, "ns": ns, "noise": noise, "variant": v})
+                        if kind == "joint" and v == 0 and dim <= 2:
+                            # competing events: the compensation must reach the scale of EVERY event
+                            out.append({"kind": kind, "dim": dim, "ns": ns, "noise": noise, "variant": v, "ne": 2})
     return out
 
 
@@ -254,7 +279,7 @@ OBS_JOINT = ("nll_attach_y_ind", "nll_attach_event_ind", "nll_attach_y", "nll_at
 
 def _feature(case, src_mean_nonzero=False):
     spec = case["spec"]
-    f = spec["kind"] + (", sources" if spec["ns"] else ", no sources")
+    f = spec["kind"] + (", sources" if spec["ns"] else ", no sources") + (", competing events" if int(spec.get("ne", 1)) > 1 else "")
     if spec["kind"] == "mixture_logistic" and src_mean_nonzero:
         f += " with non-zero overall mean"
     return f
@@ -291,19 +316,27 @@ def _gauge_tolerances(kind, v):
     tol_y = (np.abs(r) / sig**2 * out["model"] * w).sum(axis=(1, 2)) + 64 * EPS32 * terms.sum(axis=(1, 2)) + 1e-7
     out["y_ind"] = tol_y
     if kind == "joint":
-        rho = float(v["rho"].reshape(-1)[0])
-        nln = float(v["n_log_nu"].reshape(-1)[0])
-        shift = v["survival_shifts"].reshape(n) if "survival_shifts" in v else np.zeros(n)
-        arg = -(xi + shift / rho) - nln
-        nu_r = np.exp(arg)
-        s = np.clip(v["event"].reshape(n) - v["tau"].reshape(n), 0.0, None)
-        H = (s / nu_r) ** rho
-        s0 = np.clip(v["event"].min() - v["tau"].reshape(n), 0.0, None)
-        H0 = (s0 / nu_r) ** rho
-        delta = v["event_w"].reshape(n).astype(float)
-        rel_ev = 32 * EPS32 * (2 + np.abs(xi) + abs(nln) + np.abs(shift / rho) + 2 * m)
-        out["event_ind"] = rel_ev * rho * (H + delta) + 1e-9
-        out["pred_rel"] = rel_ev * rho * (H + H0) + 1e-6
+        # one Weibull term per (competing) event e: the individual's event term is the sum over e of H_e - delta_e log h_e
+        rhos = v["rho"].reshape(-1)
+        nlns = v["n_log_nu"].reshape(-1)
+        ne = rhos.shape[0]
+        ev_t = v["event"].reshape(n, -1)[:, 0]
+        ev_w = v["event_w"].reshape(n, -1)
+        shifts = v["survival_shifts"].reshape(n, -1) if "survival_shifts" in v else np.zeros((n, ne))
+        out["event_ind"] = np.full(n, 1e-9)
+        out["pred_rel"] = np.full(n, 1e-6)
+        for e in range(ne):
+            rho, nln, shift = float(rhos[e]), float(nlns[e]), shifts[:, e]
+            arg = -(xi + shift / rho) - nln
+            nu_r = np.exp(arg)
+            s = np.clip(ev_t - v["tau"].reshape(n), 0.0, None)
+            H = (s / nu_r) ** rho
+            s0 = np.clip(ev_t.min() - v["tau"].reshape(n), 0.0, None)
+            H0 = (s0 / nu_r) ** rho
+            delta = ev_w[:, e].astype(float)
+            rel_ev = 32 * EPS32 * (2 + np.abs(xi) + abs(nln) + np.abs(shift / rho) + 2 * m)
+            out["event_ind"] = out["event_ind"] + rel_ev * rho * (H + delta)
+            out["pred_rel"] = out["pred_rel"] + rel_ev * rho * (H + H0)
     return out
 
 
@@ -334,8 +367,11 @@ def _put_case_values(st, case):
         st["sources"] = T32(case["sources"]).reshape(n, spec["ns"])
 
 
-def _observe(st, kind):
+def _observe(st, kind, ne=1):
     names = list(OBS_COMMON) + (list(OBS_JOINT) if kind == "joint" else [])
+    if ne != 1:
+        # the cumulative-incidence prediction of competing events is only implemented for one individual at a time
+        names = [k for k in names if k != "predictions_event"]
     return {k: N(st[k]) for k in names}
 
 
@@ -349,7 +385,8 @@ def run_gauge(case):
     recentring = has_recentring(model)
 
     # ---- before
-    before = _observe(st, kind)
+    ne = int(spec.get("ne", 1))
+    before = _observe(st, kind, ne)
     vals = {"xi": N(st["xi"]), "tau": N(st["tau"]), "t": N(st["t"]), "model": before["model"],
             "y": N(st["y"]), "y_w": st["y"].weight.numpy().astype(bool), "noise_std": N(st["noise_std"])}
     if kind != "shared_speed_logistic":
@@ -372,7 +409,7 @@ def run_gauge(case):
     # ---- the real step
     try:
         model.compute_sufficient_statistics(st)
-        after = _observe(st, kind)
+        after = _observe(st, kind, ne)
         xi1 = N(st["xi"]).reshape(-1)
         dig_after = {k: tdigest(st._values.get(k)) for k in indep}
     except Exception as e:  # the step must run on every state
@@ -401,8 +438,9 @@ def run_gauge(case):
         chk("nll_attach_y", "attachment term changed", tol["y_ind"].sum())
         chk("nll_attach_event", "event likelihood changed", tol["event_ind"].sum())
         chk("nll_attach", "attachment term changed", tol["y_ind"].sum() + tol["event_ind"].sum())
-        chk("predictions_event", "event prediction (survival) changed",
-            tol["pred_rel"].reshape(-1, 1) * np.abs(before["predictions_event"]) + 1e-300)
+        if "predictions_event" in before:
+            chk("predictions_event", "event prediction (survival) changed",
+                tol["pred_rel"].reshape(-1, 1) * np.abs(before["predictions_event"]) + 1e-300)
     else:
         chk("nll_attach_ind", "attachment term changed", tol["y_ind"])
         chk("nll_attach", "attachment term changed", tol["y_ind"].sum())
